@@ -1143,6 +1143,18 @@ class BlockwiseRequest(BaseUnicastRequest, interfaces.Request):
                 # this response carries is no part of the representation
                 # assembled so far, even if it is labelled with a Block2
                 # option.
+                if last_response.code.is_successful():
+                    # Not an error that could stand for the outcome of the
+                    # whole operation: passing this single block on would
+                    # present a fragment as the representation.
+                    log.error(
+                        "Server answered a later block with a different successful code (%s after %s)",
+                        last_response.code,
+                        assembled_response.code,
+                    )
+                    raise error.UnexpectedBlock2(
+                        "Response code changed in the middle of a block-wise transfer"
+                    )
                 log.warning(
                     "Server answered a later block with a different code (%s after %s). Blockwise transfer cancelled, accepting single response.",
                     last_response.code,
